@@ -22,7 +22,7 @@ F = "kaira/models/fec/encoders/"
 
 
 def _cfgs(tier):
-    return codes.catalogue(tier)
+    return [c for c in codes.catalogue(tier) if not codes.rm_search_heavy(c)]
 
 
 def _layouts(k, tier):
@@ -87,6 +87,8 @@ def roundtrip(ctx, cfg):
 def _rej_cfgs(tier):
     out = []
     for c in codes.catalogue(tier):
+        if codes.rm_search_heavy(c):
+            continue
         enc, _ = codes.try_build(c)
         if enc is not None and tuple(enc.generator_matrix.shape) == (1, 1):
             continue  # block size 1: every length is admissible, nothing to reject
